@@ -37,6 +37,7 @@
 #include <vector>
 
 #include "celma/prog_args.hpp"
+#include "celma/prog_args/groups.hpp"
 
 using celma::prog_args::Handler;
 
@@ -592,6 +593,10 @@ int main(int argc, char** argv)
       const bool envCase = r.chance(1, 4);
       const int envBase = (int)r.below(8);
       const bool fileCase = r.chance(1, 2), sameFile = r.chance(1, 2);
+      // several threads print a usage at the same time; the handler asks the library-internal Groups singleton whether it is
+      // evaluated by a group - every case starts without that object, so the threads race for its creation
+      const bool usageCase = !envCase && r.chance(1, 4);
+      celma::prog_args::Groups::reset();
       uint64_t h = vh::hash_u64(T, vh::hash_u64(level));
       for (unsigned t = 0; t < T; ++t)
       {
@@ -600,6 +605,7 @@ int main(int argc, char** argv)
          int kind = (k0 + (int)t * kstep) % NKINDS;
          if (t < 2 && r.chance(1, 2)) kind = (t == 0) ? K_VEC_INT : K_VEC_STR;
          if (envCase && t < 3) kind = fileCase ? K_ARGFILE : K_ENVVAR;
+         if (usageCase && t < 4) kind = K_USAGE;
          ws[t].sc = makeScenario(r, kind, s0 + (int)t);
          if (kind == K_ARGFILE && envCase)
          {
